@@ -2,11 +2,13 @@ package props
 
 import (
 	"bytes"
+	"io"
 	"crypto"
 	"fmt"
 	"strings"
 
 	"golang.org/x/crypto/openpgp"
+	"golang.org/x/crypto/openpgp/armor"
 	"golang.org/x/crypto/openpgp/clearsign"
 	"golang.org/x/crypto/openpgp/packet"
 
@@ -24,6 +26,23 @@ func clearSign(e *openpgp.Entity, text string) string {
 	w.Write([]byte(text))
 	w.Close()
 	return b.String()
+}
+
+// withSignatures replaces the signature armor of a clearsigned document by one armor that
+// holds the signature packets of all the given clearsigned documents, in that order
+func withSignatures(signed string, from ...string) string {
+	var packets []byte
+	for _, f := range from {
+		if blk, _ := clearsign.Decode([]byte(f)); blk != nil {
+			raw, _ := io.ReadAll(blk.ArmoredSignature.Body)
+			packets = append(packets, raw...)
+		}
+	}
+	var b bytes.Buffer
+	w, _ := armor.Encode(&b, "PGP SIGNATURE", nil)
+	w.Write(packets)
+	w.Close()
+	return signed[:strings.Index(signed, "-----BEGIN PGP SIGNATURE-----")] + b.String() + "\n"
 }
 
 func hexID(e *openpgp.Entity) string { return core.Hex(fmt.Sprintf("%016x", e.PrimaryKey.KeyId)) }
@@ -108,6 +127,51 @@ var clearsigImpl = map[string]core.Adapter{
 		}
 		return "ok"
 	},
+}
+
+func init() {
+	// law: the keyring is consulted as it is at the time of the call.  args: a document signed
+	// by key A, the same text signed by key B, keyring {A}, keyring {B}
+	clearsigImpl["law-clearsig-krmut"] = func(a []string) string {
+		docA, docB := core.MustUnHex(a[0]), core.MustUnHex(a[1])
+		kr := readKeyring(a[2])
+		krB := readKeyring(a[3])
+		if len(kr) != 1 || len(krB) != 1 {
+			return "ok"
+		}
+		read := func(doc string) string {
+			r, err := control.NewParagraphReader(strings.NewReader(doc), &kr)
+			if err != nil {
+				return "err"
+			}
+			if _, err := r.All(); err != nil {
+				return "err"
+			}
+			if r.Signer() == nil {
+				return "ok none"
+			}
+			return "ok " + hexID(r.Signer())
+		}
+		idA, idB := hexID(kr[0]), hexID(krB[0])
+		if got := read(docA); got != "ok "+idA {
+			return "FAIL a document signed by the keyring's key: " + got
+		}
+		if got := read(docB); got != "err" {
+			return "FAIL a document signed by a key outside the keyring: " + got
+		}
+		kr[0] = krB[0] // the caller replaces the entry in place
+		if got := read(docA); got != "err" {
+			return "FAIL after the keyring entry was replaced, a document signed by the removed key is still accepted: " + got
+		}
+		if got := read(docB); got != "ok "+idB {
+			return "FAIL after the keyring entry was replaced, a document signed by the new key: " + got
+		}
+		kr = kr[:0]
+		if got := read(docB); got != "err" {
+			return "FAIL with the keyring emptied in place: " + got
+		}
+		return "ok"
+	}
 }
 
 func emitClearsig(g *core.G, input string, kr []*openpgp.Entity, hasKr bool) {
@@ -222,6 +286,25 @@ func streamClearsig(g *core.G) {
 				emitClearsig(g, second+sep+signed, krBoth, true)
 			}
 		}
+		// several signature packets in one armor: signatures over other texts (another document,
+		// the empty text) by keys of the keyring do not make this text a signed one
+		{
+			otherDoc := clearSign(signer, "Some: other text\n")
+			emptyDoc := clearSign(signer, "")
+			empty2 := clearSign(ks[1-r.Intn(2)], "")
+			law(withSignatures(signed, otherDoc, emptyDoc), krBoth, true, sid, "reject")
+			law(withSignatures(signed, emptyDoc, otherDoc), krBoth, true, sid, "reject")
+			law(withSignatures(signed, otherDoc, empty2, emptyDoc), krBoth, true, sid, "reject")
+			law(withSignatures(signed, clearSign(ks[2], text), emptyDoc), krBoth, true, sid, "reject")
+			law(withSignatures(signed, signed, otherDoc), krBoth, true, sid, "faithful")
+			law(withSignatures(signed, otherDoc, signed), krBoth, true, sid, "faithful")
+			// a keyring variable that is edited in place between reads
+			o := ks[0]
+			if o == signer {
+				o = ks[1]
+			}
+			g.Emit("law-clearsig-krmut", core.Hex(signed), core.Hex(clearSign(o, text)), core.Hex(serializeKeyring([]*openpgp.Entity{signer})), core.Hex(serializeKeyring([]*openpgp.Entity{o})))
+		}
 		// signature removed / replaced by another document's signature
 		law(signed[:sigStart], krBoth, true, sid, "reject")
 		other := clearSign(signer, text+"Extra: 1\n")
@@ -237,7 +320,7 @@ func init() {
 		ID: "C11", PropsModule: "GoDebian.Props.C11",
 		Facts: []string{"fingerprint:control.NewParagraphReader", "fingerprint:control.ParagraphReader.decodeClearsig", "fingerprint:control.ParagraphReader.Signer", "fingerprint:control.Decoder.Signer", "fingerprint:control.NewDecoder"},
 		Streams: []core.Stream{{Name: "clearsig", Gen: streamClearsig,
-			Domain: "generated deb822 documents (1-2 paragraphs, continuation and dash-escaped lines) clearsigned with one of two fresh RSA keys x keyrings (signer only, both, other key, empty, nil) and the unsigned text; per signed text substitution, deletion, insertion and truncation at sampled (quick: ~25 positions) or all (thorough) offsets; foreign text spliced before the armor (with and without blank line), inside the signed text, before the signature and after the armor; a second complete signed document (by the same key, the other keyring key or an outsider; other text or a replay) appended behind the first; signature removed; signature of another document; model (with the real Decode / CheckDetachedSignature answers) vs NewParagraphReader+All+Signer and the Decoder entry point; law-clearsig: valid accepted faithfully with the signer's id, outsider/empty keyring rejected, damaged variants either rejected or read as exactly the signed paragraphs, changed text characters rejected, no signer for unsigned input"}},
+			Domain: "generated deb822 documents (1-2 paragraphs, continuation and dash-escaped lines) clearsigned with one of two fresh RSA keys x keyrings (signer only, both, other key, empty, nil) and the unsigned text; per signed text substitution, deletion, insertion and truncation at sampled (quick: ~25 positions) or all (thorough) offsets; foreign text spliced before the armor (with and without blank line), inside the signed text, before the signature and after the armor; a second complete signed document (by the same key, the other keyring key or an outsider; other text or a replay) appended behind the first; several signature packets in one armor (over other texts, over the empty text, by keyring keys and outsiders); a keyring edited in place between reads; signature removed; signature of another document; model (with the real Decode / CheckDetachedSignature answers) vs NewParagraphReader+All+Signer and the Decoder entry point; law-clearsig: valid accepted faithfully with the signer's id, outsider/empty keyring rejected, damaged variants either rejected or read as exactly the signed paragraphs, changed text characters rejected, no signer for unsigned input"}},
 		Impl: clearsigImpl, TrustedBase: tb,
 		Readable: func(op string, a []string) string {
 			return fmt.Sprintf("%s(%q, keyring=%s) %v", op, clipStr(core.MustUnHex(a[0]), 300), a[1], a[len(a)-1])
